@@ -539,7 +539,7 @@ pub fn run(args: &Args) -> Report {
             Cfg { rwnd: (2, 2), cap: 0, variant: 2, linger: true, double: true },
         ]
     } else {
-        vec![Cfg { rwnd: (2, 2), cap: 0, variant: 2, linger: false, double: false }, Cfg { rwnd: (2, 1), cap: 1, variant: 0, linger: false, double: false }, Cfg { rwnd: (2, 2), cap: 0, variant: 2, linger: true, double: false }, Cfg { rwnd: (2, 2), cap: 0, variant: 2, linger: false, double: true }, Cfg { rwnd: (2, 1), cap: 1, variant: 0, linger: false, double: true }]
+        vec![Cfg { rwnd: (2, 2), cap: 0, variant: 2, linger: false, double: false }, Cfg { rwnd: (2, 1), cap: 1, variant: 0, linger: false, double: false }, Cfg { rwnd: (2, 2), cap: 0, variant: 2, linger: true, double: false }, Cfg { rwnd: (2, 2), cap: 0, variant: 2, linger: false, double: true }, Cfg { rwnd: (2, 1), cap: 1, variant: 0, linger: false, double: true }, Cfg { rwnd: (2, 2), cap: 0, variant: 2, linger: true, double: true }]
     };
     for cfg in cfgs {
         // quick tier: the lean scenario gets every fault at every point of every <= 1-deviation schedule, the busy one
